@@ -86,8 +86,12 @@ class Ctx:
                         have |= {b.split("@")[0] for b in v.get("bindings", [])}
         missing = [x for x in names if x not in have]
         if missing:
-            raise AnalysisBroken("anchor name(s) %s not found in %s (renamed?): the rules for this function cannot be evaluated" % (
-                ", ".join(missing), fn.pq))
+            # the rules that read this function by these names cannot judge it: they are 'analysis broken'.  The other rules of the
+            # property still run; whatever the name-bound rules then report inside this function is not a verdict (see
+            # _unanchored_functions, applied after the run).
+            self.broken("anchor:" + fn.pq.replace("Oomd::", ""), "anchor", fn.loc(),
+                        "anchor name(s) %s not found in %s (renamed?): the rules for this function cannot be evaluated" % (", ".join(missing), fn.pq))
+            self.__dict__.setdefault("unanchored", []).append((fn.file, fn.line, fn.d.get("endline", fn.line), fn.pq))
         return fn
 
     def use(self, fn):
@@ -199,9 +203,37 @@ def run_rules(pid, repo, tier="quick", seed=0):
             len(cg.gaps), f.qname, f.loc(n) if isinstance(n, int) else n, r))
     ctx = Ctx(pid, prog, cg, st, tier, seed)
     mod = importlib.import_module("analysis.rules." + pid)
-    mod.run(ctx)
+    try:
+        mod.run(ctx)
+    except AnalysisBroken as e:
+        # a vanished anchor stops the remaining rules of this property, but what the earlier rules established (and found) stands
+        ctx.broken("analysis-broken", "anchor", "-", str(e))
+    except Exception as e:
+        tb = traceback.format_exc().strip().splitlines()
+        ctx.broken("internal-error", "engine", "-", "%s: %s (%s)" % (type(e).__name__, e, tb[-3].strip() if len(tb) >= 3 else ""))
     _unfollowed_helpers(ctx)
+    _unanchored_functions(ctx)
     return ctx, mod
+
+
+def _unanchored_functions(ctx):
+    """Findings located inside a function whose name anchors are gone are not verdicts (the rules spelled conditions and values with
+    names that no longer exist): they become 'analysis broken'.  Interprocedural and type rules are not name-bound and keep theirs."""
+    import re
+    un = getattr(ctx, "unanchored", [])
+    if not un:
+        return
+    for o in ctx.obs:
+        if o.status != "violated" or any(x in (o.rule or "") for x in _INTERPROCEDURAL):
+            continue
+        m = re.match(r"^(.*?):(\d+)", o.loc or "")
+        if not m:
+            continue
+        for file_, a_, b_, pq in un:
+            if m.group(1) == file_ and a_ <= int(m.group(2)) <= b_:
+                o.status = "broken"
+                o.msg = "not a verdict: %s lost the local names this rule reads it by - %s" % (pq, o.msg)
+                break
 
 
 _INTERPROCEDURAL = ("interprocedural", "through helpers", "helpers followed", "E-ESCAPE", "who-may", "E-TYPE", "lockset", "E-LOCK", "field-read", "storage_class", "effect")
